@@ -1011,6 +1011,17 @@ def body_relation_pairwise(case, ctx):
                 ctx.check(bool(np.asarray(unit)) == bool(got[i, j]),
                           which + " pairwise entry equals the answer for the unit disks",
                           i=i, j=j, pairwise=bool(got[i, j]), unit=bool(np.asarray(unit)))
+        # one disk against many, and many against one: the row / column of the table
+        row = np.asarray(getattr(DA[0], which)(DB, broadcast="pairwise"))
+        ctx.check(row.size == m and np.array_equal(np.ravel(row).astype(bool),
+                                                   got[0, :].astype(bool)),
+                  which + ": one disk against many (pairwise) is the first row of the table",
+                  got=row, want=got[0, :])
+        colm = np.asarray(getattr(DA, which)(DB[0], broadcast="pairwise"))
+        ctx.check(colm.size == n and np.array_equal(np.ravel(colm).astype(bool),
+                                                    got[:, 0].astype(bool)),
+                  which + ": many disks against one (pairwise) is the first column of the "
+                  "table", got=colm, want=got[:, 0])
 
 
 # ---------------------------------------------------------------------------
